@@ -77,6 +77,10 @@ func (s *DiskKeyIndex) IteratorBetween(keyLower []byte, keyHigher []byte) (skipl
 
 	// due to the inclusivity of keyHigher, we want to exclude the next item if it's not an exact match
 	if !found {
+		// keyHigher is lower than the first key, there is nothing in the range (and nothing to subtract from)
+		if endOffset == 0 {
+			return s.newIterator(1, 0), nil
+		}
 		endOffset = endOffset - 1
 	}
 
@@ -95,7 +99,10 @@ func (s *DiskKeyIndex) binarySearch(target []byte) (uint64, *proto.IndexEntry, b
 		at, err := s.findAt(h)
 		if err != nil {
 			if errors.Is(err, io.EOF) {
-				return n, nil, false, nil
+				// no record starts at or after h (h lies inside the last record), which compares like a key that
+				// is greater than every target: the answer is at or before h
+				j = h
+				continue
 			}
 			return 0, nil, false, err
 		}
@@ -123,7 +130,8 @@ func (s *DiskKeyIndex) findAt(off uint64) (*proto.IndexEntry, error) {
 
 	record := &proto.IndexEntry{}
 	_, _, err := s.reader.SeekNext(record, off)
-	if len(s.offsetCache) < s.offsetCacheMaxSize {
+	// a failed lookup (for example the end of the file) must not be cached as if it were an empty entry
+	if err == nil && len(s.offsetCache) < s.offsetCacheMaxSize {
 		s.offsetCache[off] = record
 	}
 
